@@ -36,7 +36,7 @@ func init() {
 		Run: func(c *Ctx) {
 			c.P.Rule = "random, productive and fault-injected grammars"
 			n := 0
-			c.Rapid("usable", c.Pick(3000, 60000), func(t *rapid.T) {
+			c.Rapid("usable", c.Pick(10000, 100000), func(t *rapid.T) {
 				cs := drawC12(t)
 				n++
 				if msg := evalC12(c, cs, n%40 == 0); msg != "" {
